@@ -1,3 +1,4 @@
+pub mod dis_ref;
 pub mod shrink;
 pub mod time_ref;
 pub mod units_ref;
